@@ -42,6 +42,9 @@ type SOp struct {
 	Tape   []uint64 `json:"tape,omitempty"`    // map-order tape
 	New    *ObjSpec `json:"new,omitempty"`     // create
 	Mut    uint64   `json:"mut,omitempty"`     // mutate
+	// Jumps: the simulated clock jumps while this op runs (only matters if the
+	// library reads the clock or arms timers)
+	Jumps []verifsim.ClockJump `json:"clock_jumps,omitempty"`
 }
 
 // SchedPlan is a complete, self-contained simulated run: objects, data, the
